@@ -1,5 +1,8 @@
 import Abmarl.Props.C08
 import Abmarl.Props.Examples
+import Abmarl.Props.Corridor
+import Abmarl.Props.MultiGrid
+import Abmarl.Props.Reach
 #print axioms Abmarl.fresh_twin_managers
 #print axioms Abmarl.mgr_reset_forgets
 #print axioms Abmarl.runOp_reset_eq
@@ -28,3 +31,15 @@ import Abmarl.Props.Examples
 #print axioms Abmarl.examples_reach_keeps
 #print axioms Abmarl.Ex.applyComps_keeps
 #print axioms Abmarl.Ex.ops_keeps
+#print axioms Abmarl.corridor_reset_forgets
+#print axioms Abmarl.corridor_reset_fresh
+#print axioms Abmarl.corridor_fresh_twin
+#print axioms Abmarl.Cor.reset_inv
+#print axioms Abmarl.multigrid_reset_forgets
+#print axioms Abmarl.multigrid_fresh_twin
+#print axioms Abmarl.multigrid_used_sameBut_fresh
+#print axioms Abmarl.multigrid_reach_keeps
+#print axioms Abmarl.multigrid_fresh_twin_reachable
+#print axioms Abmarl.reach_reset_establishes
+#print axioms Abmarl.reach_reset_forgets
+#print axioms Abmarl.reach_fresh_twin
